@@ -678,11 +678,7 @@ func checkDirectStarts(s *taskState, p *TaskPlan, rc *simkit.RunCtx, execWait ti
 					fresh++
 				}
 			case "schedzero":
-				// (un-scheduling a queued task can start it at once: the listed finding C07.early)
-				sched = append(sched, o.T)
-				if isFresh {
-					fresh++
-				}
+				// un-scheduling arms nothing (before the fix 1e05802 it could start a queued task at once)
 			}
 		}
 		for _, t := range queued {
